@@ -262,26 +262,37 @@ def read_reserved(ctx, rid: str) -> Reserved:
     def is_v(e) -> bool:
         return isinstance(e, ast.Name) and e.id == v
 
-    def in_test(t, left_is, right_is):
-        """`<left> in <right>` -> (left, right) when the operands have the requested roles."""
-        if isinstance(t, ast.Compare) and len(t.ops) == 1 and isinstance(t.ops[0], ast.In) and left_is(t.left) \
-                and right_is(t.comparators[0]):
-            return t.left, t.comparators[0]
+    def in_test(t, left_is, right_is, signed=False):
+        """`<left> in <right>` -> (left, right) when the operands have the requested roles.  With signed=True also
+        `<left> not in <right>` / `not (<left> in <right>)`, returned as (left, right, polarity)."""
+        pol = True
+        while signed and isinstance(t, ast.UnaryOp) and isinstance(t.op, ast.Not):
+            t, pol = t.operand, not pol
+        if isinstance(t, ast.Compare) and len(t.ops) == 1 and left_is(t.left) and right_is(t.comparators[0]):
+            if isinstance(t.ops[0], ast.In):
+                return (t.left, t.comparators[0], pol) if signed else ((t.left, t.comparators[0]) if pol else None)
+            if signed and isinstance(t.ops[0], ast.NotIn):
+                return t.left, t.comparators[0], not pol
         return None
+
+    def hit_branch(st, pol):
+        """Statements executed when the membership test is true."""
+        return st.body if pol else st.orelse
 
     names = parts = names_stmt = parts_stmt = names_test = parts_test = None
     names_raise = parts_raise = False
     for st in walk_shallow(f.node):
         if isinstance(st, ast.If):
             # `if v in <names>:`
-            m = in_test(st.test, is_v, lambda x: True)
+            m = in_test(st.test, is_v, lambda x: True, signed=True)
             if m is not None:
                 r = string_collection(ctx, f, m[1])
                 if r is not None:
                     if names is not None:
                         raise AnalysisError(f"{rid}: check_vname tests its parameter against several name tables (unrecognised)")
                     names, names_stmt = r[0], r[1] or st
-                    names_test, names_raise = st, raises(st.body)
+                    br = hit_branch(st, m[2])
+                    names_test, names_raise = st, (raises(br) if br else False)
             # `if any(d in v for d in <parts>):`
             t = st.test
             if isinstance(t, ast.Call) and isinstance(t.func, ast.Name) and t.func.id == "any" and len(t.args) == 1 \
@@ -299,9 +310,11 @@ def read_reserved(ctx, rid: str) -> Reserved:
                 continue
             d = st.target.id
             for sub in st.body:
-                if isinstance(sub, ast.If) and in_test(sub.test, lambda x: isinstance(x, ast.Name) and x.id == d, is_v) is not None:
+                m2 = in_test(sub.test, lambda x: isinstance(x, ast.Name) and x.id == d, is_v, signed=True) if isinstance(sub, ast.If) else None
+                if m2 is not None:
                     parts, parts_stmt = r[0], r[1] or st
-                    parts_test, parts_raise = sub, raises(sub.body)
+                    br = hit_branch(sub, m2[2])
+                    parts_test, parts_raise = sub, (raises(br) if br else False)
     if names is None or parts is None:
         raise AnalysisError(f"{rid}: check_vname no longer has the recognised form `if v in <names>: raise` / "
                             f"`for d in <parts>: if d in v: raise`")
